@@ -3,6 +3,7 @@ package main
 // C07 (part 1): wsutil.UTF8Reader against the standard definition, any chunking.
 
 import (
+	"io"
 	"fmt"
 	"strconv"
 	"strings"
@@ -27,6 +28,26 @@ func init() {
 			total += n
 		}
 		return fmt.Sprintf("%d %s valid=%d accepted=%d gv=%d", total, classify(err), b2i(u.Valid()), u.Accepted(), b2i(utf8.Valid(data)))
+	}
+	// rdoc <state> <streamhex> <k> <texthex>: a CheckUTF8 reader whose OnContinuation handler consumes the continuation
+	// frames itself (a streaming consumer): one fragmented text message whose whole payload is <texthex>. The bytes
+	// the handler reads are text of the message like the rest: accepted iff the whole is valid.
+	ops["rdoc"] = func(a []string) string {
+		st, _ := strconv.Atoi(a[0])
+		k, _ := strconv.Atoi(a[2])
+		src, _ := mkReader(unhx(a[1]), k, "E")
+		rd := &wsutil.Reader{Source: src, State: ws.State(st), CheckUTF8: true}
+		var got []byte
+		rd.OnContinuation = func(h ws.Header, r io.Reader) error {
+			b, err := io.ReadAll(r)
+			got = append(got, b...)
+			return err
+		}
+		if _, err := rd.NextFrame(); err != nil {
+			return "nf:" + classify(err) + " -"
+		}
+		b, err := io.ReadAll(rd)
+		return fmt.Sprintf("%s %s", classify(err), hx(append(b, got...)))
 	}
 	// u8r <hex1/hex2/...> <k> <bufsizes> <fin>: ONE UTF8Reader, Reset onto each stream in turn and
 	// read to its end: the verdict on a stream depends on that stream only.
